@@ -365,6 +365,156 @@ theorem scan_sub (T T' : List OptSpec) (unk unk' : Bytes → Option BErr) (hsub 
         | [_, _], [_] => rw [hv, hv'] at hk; simp [sameKinds] at hk
         | [_, _], _ :: _ :: _ :: _ => rw [hv, hv'] at hk; simp [sameKinds] at hk
 
+/-- `T'` (the RESP grammar's option table) against `T` (the translator's): every option of `T'`
+    that is not refused is an option of `T` at the same index with the same value kinds, or is one
+    of the `extra` words `T` does not have -/
+def OptSuper (T' T : List OptSpec) (extra : List Bytes) : Prop :=
+  ∀ k i o', findOpt T' k 0 = some (i, o') → o'.reject = none →
+    o'.missing ≠ .ignore ∧
+    ((∃ o, findOpt T k 0 = some (i, o) ∧ o.reject = none ∧ sameKinds o'.vals o.vals = true) ∨
+     (findOpt T k 0 = none ∧ k ∈ extra))
+
+/-- if the RESP grammar's scan succeeds, the translator's scan succeeds with the same result, or
+    stops with its unknown-option error at one of the `extra` words -/
+theorem scan_super (T' T : List OptSpec) (unk' : Bytes → Option BErr) (mk : Bytes → BErr) (extra : List Bytes)
+    (hsup : OptSuper T' T extra) (hunk' : ∀ k, (unk' k).isSome = true) :
+    ∀ (n : Nat) (opts : List Bytes) (s : Seen), opts.length ≤ n → scanOpts T' unk' opts = .ok s →
+      scanOpts T (fun w => some (mk w)) opts = .ok s ∨
+      ∃ w ∈ extra, scanOpts T (fun w => some (mk w)) opts = .error (mk w) := by
+  intro n
+  induction n with
+  | zero =>
+    intro opts s hl h
+    match opts with
+    | [] => left; simpa [scanOpts] using h
+    | _ :: _ => simp at hl
+  | succ n ih =>
+    intro opts s hl h
+    match opts with
+    | [] => left; simpa [scanOpts] using h
+    | a :: r =>
+      have hr : r.length ≤ n := by simp at hl; omega
+      rw [scanOpts] at h
+      cases hf' : findOpt T' (kw a) 0 with
+      | none =>
+        rw [hf'] at h
+        simp only at h
+        have := hunk' (kw a)
+        cases hu : unk' (kw a) with
+        | none => rw [hu] at this; simp at this
+        | some e => rw [hu] at h; simp at h
+      | some io =>
+        obtain ⟨idx, o'⟩ := io
+        rw [hf'] at h
+        simp only at h
+        cases hrej' : o'.reject with
+        | some f => rw [hrej'] at h; simp at h
+        | none =>
+          rw [hrej'] at h
+          simp only at h
+          obtain ⟨hmiss, hcase⟩ := hsup (kw a) idx o' hf' hrej'
+          rcases hcase with ⟨o, hf, hrej, hk⟩ | ⟨hf, hex⟩
+          · -- the translator knows the option: same step, then the rest
+            have step : ∀ (rest : List Bytes) (ts : List Tok) (s' : Seen), rest.length ≤ n →
+                scanOpts T' unk' rest = .ok s' →
+                ((do let s ← scanOpts T (fun w => some (mk w)) rest; pure ((idx, ts) :: s) : Except BErr Seen) = .ok ((idx, ts) :: s') ∨
+                 ∃ w ∈ extra, (do let s ← scanOpts T (fun w => some (mk w)) rest; pure ((idx, ts) :: s) : Except BErr Seen) = .error (mk w)) := by
+              intro rest ts s' hrl hs
+              rcases ih rest s' hrl hs with h1 | ⟨w, hw, h1⟩
+              · left; simp [h1, bind, Except.bind, pure, Except.pure]
+              · right; exact ⟨w, hw, by simp [h1, bind, Except.bind]⟩
+            rw [scanOpts, hf]
+            simp only [hrej]
+            match hv' : o'.vals, hv : o.vals with
+            | [], [] =>
+              rw [hv'] at h
+              simp only [bind, Except.bind] at h
+              cases hs : scanOpts T' unk' r with
+              | error e => rw [hs] at h; simp at h
+              | ok s' =>
+                rw [hs] at h
+                simp only [pure, Except.pure, Except.ok.injEq] at h
+                subst h
+                exact step r [] s' hr hs
+            | [k1'], [k1] =>
+              rw [hv', hv] at hk
+              simp only [sameKinds, Bool.and_eq_true, beq_iff_eq, and_true] at hk
+              rw [hv'] at h
+              simp only at h ⊢
+              match r with
+              | [] =>
+                simp only at h
+                cases hm : o'.missing with
+                | err l => rw [hm] at h; simp [Missing.result] at h
+                | crash => rw [hm] at h; simp [Missing.result] at h
+                | ignore => exact absurd hm hmiss
+              | v1 :: rest' =>
+                simp only [bind, Except.bind] at h
+                cases hx : k1'.extract v1 with
+                | error e => rw [hx] at h; simp at h
+                | ok t1 =>
+                  rw [hx] at h
+                  simp only at h
+                  cases hs : scanOpts T' unk' rest' with
+                  | error e => rw [hs] at h; simp at h
+                  | ok s' =>
+                    rw [hs] at h
+                    simp only [pure, Except.pure, Except.ok.injEq] at h
+                    subst h
+                    have := step rest' [t1] s' (by simp at hr; omega) hs
+                    simp only [bind, Except.bind, extract_ok_kind hk hx] at this ⊢
+                    exact this
+            | [k1', k2'], [k1, k2] =>
+              rw [hv', hv] at hk
+              simp only [sameKinds, Bool.and_eq_true, beq_iff_eq, and_true] at hk
+              rw [hv'] at h
+              simp only at h ⊢
+              match r with
+              | [] =>
+                simp only at h
+                cases hm : o'.missing with
+                | err l => rw [hm] at h; simp [Missing.result] at h
+                | crash => rw [hm] at h; simp [Missing.result] at h
+                | ignore => exact absurd hm hmiss
+              | [_] =>
+                simp only at h
+                cases hm : o'.missing with
+                | err l => rw [hm] at h; simp [Missing.result] at h
+                | crash => rw [hm] at h; simp [Missing.result] at h
+                | ignore => exact absurd hm hmiss
+              | v1 :: v2 :: rest' =>
+                simp only [bind, Except.bind] at h
+                cases hx : k1'.extract v1 with
+                | error e => rw [hx] at h; simp at h
+                | ok t1 =>
+                  rw [hx] at h
+                  simp only at h
+                  cases hy : k2'.extract v2 with
+                  | error e => rw [hy] at h; simp at h
+                  | ok t2 =>
+                    rw [hy] at h
+                    simp only at h
+                    cases hs : scanOpts T' unk' rest' with
+                    | error e => rw [hs] at h; simp at h
+                    | ok s' =>
+                      rw [hs] at h
+                      simp only [pure, Except.pure, Except.ok.injEq] at h
+                      subst h
+                      have := step rest' [t1, t2] s' (by simp at hr; omega) hs
+                      simp only [bind, Except.bind, extract_ok_kind hk.1 hx, extract_ok_kind hk.2 hy] at this ⊢
+                      exact this
+            | _ :: _ :: _ :: _, _ => rw [hv'] at h; simp at h
+            | [], _ :: _ => rw [hv', hv] at hk; simp [sameKinds] at hk
+            | [_], [] => rw [hv', hv] at hk; simp [sameKinds] at hk
+            | [_], _ :: _ :: _ => rw [hv', hv] at hk; simp [sameKinds] at hk
+            | [_, _], [] => rw [hv', hv] at hk; simp [sameKinds] at hk
+            | [_, _], [_] => rw [hv', hv] at hk; simp [sameKinds] at hk
+            | [_, _], _ :: _ :: _ :: _ => rw [hv', hv] at hk; simp [sameKinds] at hk
+          · -- a word only the RESP grammar knows: the translator stops here
+            right
+            refine ⟨kw a, hex, ?_⟩
+            rw [scanOpts, hf]
+
 theorem has_false_of_bound {s : Seen} {n i : Nat} (h : ∀ p ∈ s, p.1 < n) (hi : n ≤ i) : s.has i = false := by
   unfold Seen.has
   rw [List.any_eq_false]
@@ -509,6 +659,81 @@ theorem luaExpire_ok (args : List Bytes) (c : Cmd) (hl : args.length = 2) (h : B
       rw [hx] at h
       rw [extract_ok_kind (a := aIntE .luaExpireInt) (b := aInt) rfl hx]
       simp only [scanOpts, Seen.has, List.any_nil, Bool.false_and, Bool.and_false, Bool.false_eq_true, if_false] at h ⊢
+      exact h
+
+
+/-! ### the other direction: what the RESP grammar accepts and the translator refuses -/
+
+def setExtra : List Bytes := [s2b "EXAT", s2b "PXAT", s2b "KEEPTTL"]
+
+theorem optSuper_set : OptSuper Bodies.setOpts Bodies.luaSetOpts setExtra := by
+  intro k i o' h hrej
+  simp only [Bodies.setOpts, findOpt] at h
+  repeat' split at h
+  all_goals first
+    | (simp at h; done)
+    | (simp only [Option.some.injEq, Prod.mk.injEq] at h
+       obtain ⟨hi, ho⟩ := h
+       subst hi; subst ho
+       rename_i hk
+       subst hk
+       first
+         | (simp at hrej; done)
+         | exact ⟨by simp, Or.inl ⟨_, rfl, rfl, rfl⟩⟩
+         | exact ⟨by simp, Or.inr ⟨rfl, by decide⟩⟩)
+
+theorem set_ok_lua (args : List Bytes) (c : Cmd) (h : Bodies.set args = .ok c) :
+    Bodies.luaSet args = .ok c ∨ ∃ w ∈ setExtra, Bodies.luaSet args = .error (.fmt .luaUnknownSet w) := by
+  match args with
+  | [] => simp [Bodies.set] at h
+  | [_] => simp [Bodies.set] at h
+  | k :: v :: opts =>
+    simp only [Bodies.set, bind, Except.bind] at h
+    cases hs : scanOpts Bodies.setOpts (fun _ => some (.lit .syntax)) opts with
+    | error e => rw [hs] at h; simp at h
+    | ok s =>
+      rw [hs] at h
+      simp only at h
+      rcases scan_super Bodies.setOpts Bodies.luaSetOpts _ (fun w => .fmt .luaUnknownSet w) setExtra optSuper_set
+          (fun _ => rfl) opts.length opts s (Nat.le_refl _) hs with h1 | ⟨w, hw, h1⟩
+      · left
+        obtain ⟨_, hb⟩ := scan_sub Bodies.luaSetOpts Bodies.setOpts _ (fun _ => some (.lit .syntax))
+          optSub_luaSet (fun _ => rfl) opts.length opts s (Nat.le_refl _) h1
+        have hlen : Bodies.luaSetOpts.length = 5 := rfl
+        rw [hlen] at hb
+        simp only [Bodies.luaSet, h1, bind, Except.bind]
+        by_cases hc : (s.has 0 && s.has 1) = true
+        · simp [hc] at h
+        · simp only [Bool.not_eq_true] at hc
+          simp only [hc, Bool.false_eq_true, if_false, has_false_of_bound hb (i := 7) (by omega), Bool.false_and,
+            opt1_none_of_bound hb (i := 5) (by omega), opt1_none_of_bound hb (i := 6) (by omega)] at h ⊢
+          exact h
+      · right
+        exact ⟨w, hw, by simp only [Bodies.luaSet, h1, bind, Except.bind]⟩
+
+theorem expire_ok_lua (args : List Bytes) (c : Cmd) (hl : args.length = 2)
+    (h : Bodies.expire (s2b "Expire") args = .ok c) : Bodies.luaExpire args = .ok c := by
+  match args, hl with
+  | [k, n], _ =>
+    simp only [Bodies.luaExpire, Bodies.expire, bind, Except.bind] at h ⊢
+    cases hx : aInt.extract n with
+    | error e => rw [hx] at h; simp at h
+    | ok t =>
+      rw [hx] at h
+      rw [extract_ok_kind (a := aInt) (b := aIntE .luaExpireInt) rfl hx]
+      simp only [scanOpts, Seen.has, List.any_nil, Bool.false_and, Bool.and_false, Bool.false_eq_true, if_false] at h ⊢
+      exact h
+
+theorem zrange_ok_lua (args : List Bytes) (c : Cmd) (hl : args.length = 3)
+    (h : Bodies.zrange (s2b "ZRange") args = .ok c) : Bodies.luaZrange args = .ok c := by
+  match args, hl with
+  | [k, a, b], _ =>
+    simp only [Bodies.luaZrange, Bodies.zrange, bind, Except.bind] at h ⊢
+    cases hx : extractFixed [aInt, aInt] [a, b] with
+    | error e => rw [hx] at h; simp at h
+    | ok ts =>
+      rw [hx] at h
+      rw [extractFixed_ok_kind _ [aIntE .luaZrangeStart, aIntE .luaZrangeStop] (by decide) _ ts hx]
       exact h
 
 end RedisVerif.Grammar
